@@ -32,11 +32,17 @@ class C17(Check):
     real = ['rxsci.data.encode / decode (current working tree)', 'codecs incremental encoders/decoders (CPython)', 'RxPY Subject/pipe']
     stubs = ['producer of the strings', 'transport re-cutting the bytes', 'final subscriber']
     assumptions = ['inputs contain no lone surrogates (not encodable)', 'latin-1 inputs are restricted to U+0000..U+00FF']
-    probe_names = ('encoding_alias', 'concurrent_streams', 'signature_lookalike_prefix', 'zwnbsp_in_text', 'cut_inside_multibyte', 'astral', 'combining', 'empty_string', 'bom_encoding', 'swept_all_single_cuts',
+    probe_names = ('single_chunk>=1MiB', 'encoding_alias', 'concurrent_streams', 'signature_lookalike_prefix', 'zwnbsp_in_text', 'cut_inside_multibyte', 'astral', 'combining', 'empty_string', 'bom_encoding', 'swept_all_single_cuts',
                    'enc:utf-8', 'enc:utf-16', 'enc:utf-32', 'enc:latin-1')
     quick_cap = 200000
 
     def gen(self, rng, tier):
+        if rng.random() < (0.003 if tier == 'quick' else 0.01):
+            # one long text (2-3 MiB encoded), cut into single chunks whose sizes sit on and next to powers of two (64 KiB .. 2 MiB)
+            enc = rng.choice(ENCODINGS)
+            unit = ''.join(rng.choice(POOL if enc in LATIN else POOL + WIDE) for _ in range(rng.choice([5, 9, 17])))
+            return {'encoding': enc, 'strings': [], 'long': {'unit': unit, 'bytes': rng.choice([2200000, 3200000])},
+                    'cutseed': rng.randrange(1 << 30), 'sweep': False}
         enc = rng.choice(ENCODINGS)
         n = rng.choice([0, 1, 2, 3, 5]) if tier == 'quick' else rng.choice([0, 1, 3, 8, 30])
         strings = []
@@ -58,6 +64,13 @@ class C17(Check):
         try:
             if case['encoding'] not in ENCODINGS:
                 return False
+            lg = case.get('long')
+            if lg is not None:
+                u = lg['unit']
+                if not (isinstance(u, str) and 1 <= len(u) <= 40 and 1000 <= lg['bytes'] <= 4000000) or case['strings']:
+                    return False
+                if any(0xD800 <= ord(c) <= 0xDFFF for c in u) or (case['encoding'] in LATIN and any(ord(c) > 255 for c in u)):
+                    return False
             for s in case['strings']:
                 if any(0xD800 <= ord(c) <= 0xDFFF for c in s):
                     return False
@@ -77,7 +90,49 @@ class C17(Check):
             case['cuts'] = sorted(case['cuts'])
         return case
 
+    def execute_long(self, case):
+        out = Outcome()
+        enc = case['encoding']
+        lg = case['long']
+        unit = lg['unit']
+        reps = max(1, lg['bytes'] // max(1, len(unit.encode(enc if enc not in ('utf-16', 'utf-32') else enc + '-le'))))
+        text = unit * reps
+        pieces, t = collect(rx.from_([text[:1000], text[1000:]]).pipe(rs.data.encode(enc)))
+        blob = b''.join(pieces)
+        if t is None or t[0] != 'completed' or blob.decode(enc) != text:
+            out.add('encode-failed', enc, {'terminal': repr(t), 'long_text_chars': len(text)})
+            return out
+        n = len(blob)
+        runs = 0
+        for k in range(16, 22):
+            for size in (2 ** k - 1, 2 ** k, 2 ** k + 1):
+                for lead in (0, 7):
+                    if lead + size >= n:
+                        continue
+                    cs = [c for c in (lead, lead + size) if c > 0]
+                    runs += 1
+                    got, term, _ = drive(cut(blob, cs), rs.data.decode(enc))
+                    if term is None or term[0] != 'completed' or ''.join(got) != text:
+                        j = ''.join(got)
+                        d = next((x for x in range(min(len(j), len(text))) if j[x] != text[x]), min(len(j), len(text)))
+                        out.add('roundtrip', enc, {'cuts': cs, 'encoded_bytes': n, 'terminal': repr(term), 'decoded_chars': len(j),
+                                                   'expected_chars': len(text), 'first_difference_at_char': d})
+                        break
+                if out.violations:
+                    break
+            if out.violations:
+                break
+        out.steps = runs * 3
+        out.ticks = n
+        out.nontrivial = True
+        out.shape = ('long', enc, unit, lg['bytes'])
+        out.digest = repr((n, runs, [v.to_json() for v in out.violations]))
+        out.probes['single_chunk>=1MiB'] += 1
+        return out
+
     def execute(self, case):
+        if case.get('long') is not None:
+            return self.execute_long(case)
         out = Outcome()
         enc = case['encoding']
         strings = list(case['strings'])
